@@ -165,7 +165,43 @@ static void run_axes(uint64_t idx, pv_rng* rng) {
 }
 
 static void fini(void) { pv_set_flag("exhaustive.each_coin_each_birthday_each_feature_value(once)", true); }
+/* ---------------------------------------------------------------- round trips while other threads do their own */
+static bool conc_iter(pv_rng* r, int iter, void* user, char* err, size_t errsz) {
+    (void)iter; (void)user;
+    pv_mseed m; pv_gen_mseed(r, 7, true, &m);
+    polyseed_data* s = pv_seed_from_model(&m);
+    if (!s) { snprintf(err, errsz, "cannot load %s", pv_mseed_str(&m)); return false; }
+    pv_mlang* L; do { L = &pv_langs[pv_randn(r, (uint32_t)pv_nlangs)]; } while (!L->lib || (!strncmp(L->key, "zh", 2) && pv_randn(r, 4)));
+    unsigned coin = pv_gen_coin(r);
+    char* out = malloc(POLYSEED_STR_SIZE); bool ok = true;
+    size_t n = pv_api_encode(s, L->lib, coin, out);
+    char want[2048]; size_t wn = pv_m_encode(&m, L, coin, want, sizeof want);
+    if (n != wn || strcmp(out, want)) { ok = false; snprintf(err, errsz, "%s coin %u seed %s: phrase '%.80s' vs model '%.80s'", L->name_en, coin, pv_mseed_str(&m), out, want); }
+    else {
+        char* in = pv_exact_str(out);
+        polyseed_data* a = NULL; int st = pv_api_decode_explicit(in, coin, L->lib, &a);
+        if (st != POLYSEED_OK) { ok = false; snprintf(err, errsz, "%s coin %u: decode_explicit of the own phrase -> %s", L->name_en, coin, pv_status_name(st)); }
+        else { const char* mm = pv_seed_mismatch(a, &m, coin); if (mm) { ok = false; snprintf(err, errsz, "%s: explicit decode: %s", L->name_en, mm); } pv_api_free(a); }
+        pv_mdecode md; pv_m_decode(in, coin, NULL, 7, &md);
+        a = NULL; const polyseed_lang* lo = NULL; st = pv_api_decode(in, coin, pv_randn(r, 2) ? &lo : NULL, &a);
+        if (st != md.status) { ok = false; snprintf(err, errsz, "%s coin %u: decode of the own phrase -> %s, model %s", L->name_en, coin, pv_status_name(st), pv_status_name(md.status)); }
+        else if (st == POLYSEED_OK) { const char* mm = pv_seed_mismatch(a, &m, coin); if (mm) { ok = false; snprintf(err, errsz, "%s: auto decode: %s", L->name_en, mm); } if (lo && lo != L->lib) { ok = false; snprintf(err, errsz, "%s: detected as %s", L->name_en, polyseed_get_lang_name_en(lo)); } }
+        if (st == POLYSEED_OK) pv_api_free(a);
+        free(in);
+    }
+    free(out); pv_api_free(s);
+    return ok;
+}
+static uint64_t n_conc(void) { return pv_scaled(3, 100); }
+static void run_conc(uint64_t idx, pv_rng* rng) {
+    (void)idx; set_mask(7);
+    enum { NT = 8, IT = 1200 }; static pv_conc_result res[NT];
+    uint64_t seed = pv_rand64(rng);
+    pv_concurrent(NT, IT, seed, 35, conc_iter, NULL, res);
+    if (pv_concurrent_verdict(res, NT, IT, "C01/differs-under-concurrency", "concurrent.roundtrips_equal_model")) PV_DISTINCT("nontrivial", seed);
+}
+
 int main(int argc, char** argv) {
-    static const pv_section secs[] = { { "round", n_round, run_round }, { "ambiguous", n_ambig, run_ambig }, { "axes", n_axes, run_axes } };
-    return pv_main(argc, argv, "C01", secs, 3, init, fini);
+    static const pv_section secs[] = { { "round", n_round, run_round }, { "ambiguous", n_ambig, run_ambig }, { "axes", n_axes, run_axes }, { "concurrent", n_conc, run_conc } };
+    return pv_main(argc, argv, "C01", secs, 4, init, fini);
 }
